@@ -234,6 +234,8 @@ def main(argv=None):
     for name, facet in facets.items():
         if only and name not in only:
             continue
+        if facet.kind != "enum" and (facet.quick if tier == "quick" else facet.thorough) <= 0:
+            continue        # facet not part of this tier (e.g. a very large configuration: thorough only)
         if tier == "thorough" and facet.kind != "enum":
             ns = facet.shards_thorough or 16
         elif facet.kind != "enum":
